@@ -27,6 +27,8 @@ LEVEL_NOTE = ('Setup purity, format independence and seed reproducibility are st
 RULE = ('constructors classical / AIR / SA / root-node / pairwise on small Poisson, graph Laplacian, elasticity (BSR), '
         'complex and nonsymmetric matrices; histories of 1-5 solves then an observed solve vs a fresh solver (bit-identical); '
         'attribute diff; input bytes; 7 storage formats; seed twice.  Non-trivial: >= 2 levels and a non-empty history.')
+RULE += (' '
+         'Constructors incl. Jacobi (local / block / filtered), Richardson, energy smoothing, evolution strength, candidate improvement, relaxation-type coarse solvers, pairwise.')
 TRUSTED = ['SciPy format conversions', 'NumPy global RNG']
 PARTIAL = ['setup purity / format independence / seed reproducibility: correspondence only']
 # attributes that solving / smoothing may create (the caches of the model); anything else is reported
